@@ -12,6 +12,11 @@ package hopserver
 // format "hop-dh-v1-" + standard base64 of 32 bytes, one per line) and a
 // multiset of unconsumed grants per (user, key).
 //
+// Login keys are the four fixture keys and, for a third of the logins, keys
+// DERIVED from the lines of a file written earlier in the history: what an
+// over-lenient parser could read out of a malformed (or any) line
+// (c05DeriveKey). They go through the same oracle.
+//
 // Checked direction: granted => listed \/ (enabled /\ live grant). The converse is
 // asserted only where the doc comments promise it (canonical file listing the
 // key; stored grant with authgrants enabled).
@@ -19,6 +24,7 @@ package hopserver
 import (
 	"bytes"
 	"encoding/base64"
+	"fmt"
 	"strings"
 	"testing"
 	"time"
@@ -63,17 +69,30 @@ type c05Line struct {
 	N   int `json:"n,omitempty"`
 }
 
+// c05Derive makes a login present a key READ OUT OF a line of an authorized_keys file
+// the history wrote earlier, the way an over-lenient parser might read it (the key such a
+// line "stands for" after padding / truncation / skipping garbage). Pure data: the line is
+// chosen among the lines of the last write for user From at run time.
+type c05Derive struct {
+	From  int `json:"from"`          // user whose last written file is read
+	Line  int `json:"line"`          // index (mod count) into its lines that are neither canonical entries nor blank, or into all lines if there are none
+	Start int `json:"start"`         // where the payload is taken to begin (c05DeriveKey)
+	Dec   int `json:"dec,omitempty"` // how the payload is decoded
+	Fit   int `json:"fit,omitempty"` // how the decoded bytes are made 32 bytes long
+}
+
 type c05Op struct {
-	Op    string    `json:"op"` // write | remove | unreadable | enable | grant | login | grantlogin
-	User  int       `json:"u"`
-	Key   int       `json:"key"`
-	Lines []c05Line `json:"lines,omitempty"`
-	CRLF  bool      `json:"crlf,omitempty"`
-	NoNL  bool      `json:"nonl,omitempty"` // no newline after the last line
-	On    bool      `json:"on,omitempty"`   // enable: new value
-	GType int       `json:"gt,omitempty"`   // grant type byte
-	Start int       `json:"start,omitempty"`
-	Exp   int       `json:"exp,omitempty"`
+	Op    string     `json:"op"` // write | remove | unreadable | enable | grant | login | grantlogin
+	User  int        `json:"u"`
+	Key   int        `json:"key"`
+	D     *c05Derive `json:"d,omitempty"` // login: present the derived key instead of K(Key) when the file has lines
+	Lines []c05Line  `json:"lines,omitempty"`
+	CRLF  bool       `json:"crlf,omitempty"`
+	NoNL  bool       `json:"nonl,omitempty"` // no newline after the last line
+	On    bool       `json:"on,omitempty"`   // enable: new value
+	GType int        `json:"gt,omitempty"`   // grant type byte
+	Start int        `json:"start,omitempty"`
+	Exp   int        `json:"exp,omitempty"`
 }
 
 type c05Case struct {
@@ -158,6 +177,96 @@ func c05Render(op c05Op) []byte {
 		}
 	}
 	return b.Bytes()
+}
+
+// ---------------------------------------------------------------------------
+// keys an over-lenient parser could read out of a (malformed) line
+
+func c05IsB64(c byte) bool {
+	return c >= 'A' && c <= 'Z' || c >= 'a' && c <= 'z' || c >= '0' && c <= '9' || c == '+' || c == '/'
+}
+
+// c05DeriveKey reads 32 key bytes out of raw line bytes. It is deliberately NOT the
+// documented format: each combination of (start, dec, fit) is one way in which a parser
+// can be too generous (accept a prefix anywhere / in any case / the second entry of a
+// line / no prefix at all; stop at, skip, or ignore characters that are not base64;
+// decode unpadded or cut-off payloads; zero-pad short keys or cut long ones). The oracle
+// never uses it: whatever key comes out is judged by the reference parser like any other.
+func c05DeriveKey(line []byte, start, dec, fit int) (k keys.DHPublicKey) {
+	s := string(line)
+	const prefix = "hop-dh-v1-"
+	p := s
+	switch start % 4 {
+	case 0: // after the first occurrence of the prefix, wherever it is
+		if i := strings.Index(s, prefix); i >= 0 {
+			p = s[i+len(prefix):]
+		}
+	case 1: // after the last occurrence (second entry of a line)
+		if i := strings.LastIndex(s, prefix); i >= 0 {
+			p = s[i+len(prefix):]
+		}
+	case 2: // prefix in any case, dash optional
+		if i := strings.Index(strings.ToLower(s), "hop-dh-v1"); i >= 0 {
+			p = strings.TrimPrefix(s[i+len("hop-dh-v1"):], "-")
+		}
+	case 3: // no prefix needed: the longest run of base64 characters of the line
+		best, from := "", -1
+		for i := 0; i <= len(s); i++ {
+			in := i < len(s) && (c05IsB64(s[i]) || s[i] == '=')
+			if in && from < 0 {
+				from = i
+			}
+			if !in && from >= 0 {
+				if i-from > len(best) {
+					best = s[from:i]
+				}
+				from = -1
+			}
+		}
+		p = best
+	}
+	var raw []byte
+	switch dec % 3 {
+	case 0: // the leading run of base64 characters, decoded without asking for padding or a whole quantum
+		n := 0
+		for n < len(p) && c05IsB64(p[n]) {
+			n++
+		}
+		raw = c05RawDecode(p[:n])
+	case 1: // every base64 character of the rest of the line, anything else skipped
+		var b []byte
+		for i := 0; i < len(p); i++ {
+			if c05IsB64(p[i]) {
+				b = append(b, p[i])
+			}
+		}
+		raw = c05RawDecode(string(b))
+	case 2: // the standard decoder with its error ignored: whatever it decoded before it stopped
+		buf := make([]byte, base64.StdEncoding.DecodedLen(len(p)))
+		n, _ := base64.StdEncoding.Decode(buf, []byte(p))
+		raw = buf[:n]
+	}
+	switch fit % 2 {
+	case 0: // first 32 bytes, zero-padded on the right
+		copy(k[:], raw)
+	case 1: // last 32 bytes, zero-padded on the left
+		if len(raw) > len(k) {
+			raw = raw[len(raw)-len(k):]
+		}
+		copy(k[len(k)-len(raw):], raw)
+	}
+	return k
+}
+
+// c05RawDecode decodes a string of base64 characters of any length: whole quanta, then
+// what the remaining 2 or 3 characters still determine (a single left-over character
+// determines no byte).
+func c05RawDecode(s string) []byte {
+	if len(s)%4 == 1 {
+		s = s[:len(s)-1]
+	}
+	out, _ := base64.RawStdEncoding.DecodeString(s) // non-strict: trailing bits are ignored
+	return out
 }
 
 // ---------------------------------------------------------------------------
@@ -259,8 +368,9 @@ func c05Run(c c05Case, v *vlib.Verdict) {
 	// model
 	enabled := c.Enabled
 	files := map[string]c05File{}
-	grants := map[c05UK]int{}    // unconsumed grants
-	consumed := map[c05UK]bool{} // a grant for the pair was consumed and none added since
+	written := map[string][]c05Line{} // lines of the last write per user (source of derived login keys; kept after remove)
+	grants := map[c05UK]int{}         // unconsumed grants
+	consumed := map[c05UK]bool{}      // a grant for the pair was consumed and none added since
 	labels := map[string]bool{}
 	nt := false
 	defer func() { // classification is recorded for violating cases as well
@@ -333,6 +443,7 @@ func c05Run(c c05Case, v *vlib.Verdict) {
 			data := c05Render(op)
 			z.WriteKeys(user, data)
 			files[user] = c05RefParse(data)
+			written[user] = op.Lines
 		case "remove":
 			z.RemoveKeys(user)
 			delete(files, user)
@@ -372,6 +483,32 @@ func c05Run(c c05Case, v *vlib.Verdict) {
 				}
 			}
 		case "login":
+			kname := fmt.Sprintf("K%d", op.Key+1)
+			if d := op.D; d != nil && len(written[verifAuthzUsers[d.From%len(verifAuthzUsers)]]) > 0 {
+				// present the key an over-lenient parser would read out of a line of the file
+				lines := written[verifAuthzUsers[d.From%len(verifAuthzUsers)]]
+				var odd []c05Line
+				for _, l := range lines {
+					if l.K != c05Valid && l.K != c05Blank && l.K != c05Space {
+						odd = append(odd, l)
+					}
+				}
+				if len(odd) > 0 {
+					lines = odd
+				}
+				l := lines[d.Line%len(lines)]
+				key = c05DeriveKey(c05RenderLine(l), d.Start, d.Dec, d.Fit)
+				uk.k, kname = -1, fmt.Sprintf("derived(%s line, start=%d dec=%d fit=%d)=%x", c05KindName[l.K], d.Start%4, d.Dec%3, d.Fit%2, key[:])
+				for j := 0; j < verifAuthzNKeys; j++ {
+					if verifAuthzKey(j) == key {
+						uk.k, kname = j, fmt.Sprintf("K%d(derived from a %s line)", j+1, c05KindName[l.K])
+					}
+				}
+				labels["derived-key:"+c05KindName[l.K]] = true
+				if uk.k < 0 {
+					labels["derived-key:not-a-fixture-key"] = true
+				}
+			}
 			f := files[user]
 			st := f.state(user == "ghost", key)
 			listed := st == "listed" || st == "listed+malformed"
@@ -394,8 +531,8 @@ func c05Run(c c05Case, v *vlib.Verdict) {
 			switch {
 			case granted && !viaGrant:
 				if !listed && !live {
-					v.Failf("C05:granted-without-entry-or-grant:"+st, "step %d: AuthorizeKey(%s,K%d)=nil; file state %q (%d well-formed entries, %d malformed lines), no live grant (enabled=%v, grants=%d)",
-						i, user, op.Key+1, st, len(f.entries), f.malformed, enabled, grants[uk])
+					v.Failf("C05:granted-without-entry-or-grant:"+st, "step %d: AuthorizeKey(%s,%s)=nil; file state %q (%d well-formed entries, %d malformed lines), no live grant (enabled=%v, grants=%d)",
+						i, user, kname, st, len(f.entries), f.malformed, enabled, grants[uk])
 					return
 				}
 				if !listed {
@@ -407,11 +544,11 @@ func c05Run(c c05Case, v *vlib.Verdict) {
 				}
 			default:
 				if st == "listed" && f.canonical {
-					v.Failf("C05:refused-listed-key", "step %d: login (%s,K%d) refused although the file consists solely of canonical entries and lists the key", i, user, op.Key+1)
+					v.Failf("C05:refused-listed-key", "step %d: login (%s,%s) refused although the file consists solely of canonical entries and lists the key", i, user, kname)
 					return
 				}
 				if live {
-					v.Failf("C05:refused-live-grant", "step %d: login (%s,K%d) refused although %d grants are stored and authgrants are enabled", i, user, op.Key+1, grants[uk])
+					v.Failf("C05:refused-live-grant", "step %d: login (%s,%s) refused although %d grants are stored and authgrants are enabled", i, user, kname, grants[uk])
 					return
 				}
 			}
@@ -506,6 +643,16 @@ func c05GenOp(t *rapid.T) c05Op {
 		op.Exp = rapid.IntRange(-5, 60).Draw(t, "exp")
 	case "login", "grantlogin":
 		op.Key = rapid.SampledFrom(c05KeyBias).Draw(t, "key")
+		// a third of the logins present a key READ OUT OF a line of a file written earlier
+		// (mostly the user's own) instead of a fixture key
+		if op.Op == "login" && rapid.IntRange(0, 2).Draw(t, "derive") == 0 {
+			d := &c05Derive{From: op.User, Line: rapid.IntRange(0, 4).Draw(t, "dline"), Start: rapid.IntRange(0, 3).Draw(t, "dstart"),
+				Dec: rapid.IntRange(0, 2).Draw(t, "ddec"), Fit: rapid.IntRange(0, 1).Draw(t, "dfit")}
+			if rapid.IntRange(0, 5).Draw(t, "dother") == 0 {
+				d.From = rapid.IntRange(0, len(verifAuthzUsers)-1).Draw(t, "dfrom")
+			}
+			op.D = d
+		}
 	}
 	return op
 }
@@ -550,6 +697,31 @@ func c05SelfTest(t *testing.T) {
 			if (kind == c05Valid) != f.canonical {
 				t.Fatalf("VERIF-MACHINERY reference parser: canonical=%v for line kind %s", f.canonical, c05KindName[kind])
 			}
+		}
+	}
+	// the lenient reader: a canonical entry yields its key in every mode; a payload cut at a
+	// quantum boundary yields the decoded bytes zero-padded; the second entry of a line is found
+	for m := 0; m < 4*3*2; m++ {
+		if got := c05DeriveKey([]byte(c05Entry(1)), m%4, m/4%3, m/12); got != verifAuthzKey(1) {
+			t.Fatalf("VERIF-MACHINERY c05DeriveKey(start=%d dec=%d fit=%d) of a canonical entry = %x", m%4, m/4%3, m/12, got[:])
+		}
+	}
+	{
+		k := verifAuthzKey(2)
+		var want keys.DHPublicKey
+		copy(want[:], k[:30])
+		if got := c05DeriveKey(c05RenderLine(c05Line{K: c05Truncated, Key: 2, N: 40}), 0, 0, 0); got != want {
+			t.Fatalf("VERIF-MACHINERY c05DeriveKey of an entry cut after 40 characters = %x, want %x", got[:], want[:])
+		}
+		copy(want[:], k[:31])
+		if got := c05DeriveKey(c05RenderLine(c05Line{K: c05Key31, Key: 2}), 0, 0, 0); got != want {
+			t.Fatalf("VERIF-MACHINERY c05DeriveKey of a 31-byte entry = %x, want %x", got[:], want[:])
+		}
+		if got := c05DeriveKey(c05RenderLine(c05Line{K: c05TwoInOne, Key: 2, N: 0}), 1, 0, 0); got != verifAuthzKey(3) {
+			t.Fatalf("VERIF-MACHINERY c05DeriveKey does not find the second entry of a line: %x", got[:])
+		}
+		if _, ok := c05RefEntry(keys.DHPublicKeyPrefix + c05B64(want)); !ok {
+			t.Fatalf("VERIF-MACHINERY reference parser rejects the canonical entry of a derived key")
 		}
 	}
 	f := c05RefParse([]byte(c05Entry(0) + "\n" + c05Entry(1)))
